@@ -47,6 +47,11 @@ type PhCase struct {
 	From  int    `json:"from"`  // embedded: text[From:To] goes into the variable
 	To    int    `json:"to"`    //
 	Text  string `json:"text"`  // invalid_text: what the variable holds
+	// Decoy: name of a second variable / property key that IS defined although it is not the one the placeholder
+	// names: it differs from Name only in letter case (environment names are case-sensitive on every OS but windows,
+	// property keys everywhere) or by one appended / removed character. In the must-reject modes it holds the text
+	// the field would accept (so a resolver that falls back to it accepts the configuration silently), otherwise decoyText.
+	Decoy string `json:"decoy,omitempty"`
 	Comp  string `json:"comp"`  // informative
 	Class string `json:"class"` // informative: value class of the field
 }
@@ -80,6 +85,54 @@ func literalText(v any) (string, bool) {
 		return strconv.FormatFloat(x, 'g', -1, 64), true
 	}
 	return "", false
+}
+
+// decoyText is what a decoy holds while the named variable is defined: no valid value of any non-string field.
+const decoyText = "verif decoy"
+
+// nearMisses lists names that are not name but close to it: the case variants first
+// (all upper, all lower, one letter flipped), then name with a character appended / removed.
+func nearMisses(name string, flip int) (caseVariants, affixed []string) {
+	add := func(l *[]string, v string) {
+		if v == name || v == "" {
+			return
+		}
+		for _, x := range *l {
+			if x == v {
+				return
+			}
+		}
+		*l = append(*l, v)
+	}
+	add(&caseVariants, strings.ToUpper(name))
+	add(&caseVariants, strings.ToLower(name))
+	var letters []int
+	for i := 0; i < len(name); i++ {
+		if c := name[i] | 0x20; c >= 'a' && c <= 'z' {
+			letters = append(letters, i)
+		}
+	}
+	if len(letters) > 0 {
+		b := []byte(name)
+		b[letters[flip%len(letters)]] ^= 0x20
+		add(&caseVariants, string(b))
+	}
+	add(&affixed, name+"_")
+	add(&affixed, name+"2")
+	add(&affixed, name[:len(name)-1])
+	add(&affixed, "X"+name)
+	return
+}
+
+func decoyClass(name, decoy string) string {
+	switch {
+	case decoy == "":
+		return "decoy:none"
+	case strings.EqualFold(name, decoy):
+		return "decoy:case_variant"
+	default:
+		return "decoy:affixed"
+	}
 }
 
 // invalidTexts lists variable contents that are no value of the field's kind (clear cases
@@ -206,6 +259,19 @@ func genPh(r *vf.Run) func(t *rapid.T) PhCase {
 		if c.Mode == pNoSeparator && r.IsKnown(findingNoSeparator) {
 			r.Excluded(findingNoSeparator)
 			c.Mode = pMissingKey
+		}
+		// A near-miss name that is defined: in three of four "nothing by that name" cases, in one of three others.
+		decoyOdds := 0
+		switch c.Mode {
+		case pUnsetEnv, pMissingKey:
+			decoyOdds = 3
+		case pWhole, pEmbedded, pInvalid:
+			decoyOdds = 1
+		}
+		if decoyOdds > 0 && rapid.IntRange(0, decoyOdds+(4-decoyOdds)%3).Draw(t, "decoy") < decoyOdds {
+			cv, af := nearMisses(c.Name, rapid.IntRange(0, 31).Draw(t, "flip"))
+			pool := append(append(append([]string{}, cv...), cv...), af...) // case variants twice as likely
+			c.Decoy = rapid.SampledFrom(pool).Draw(t, "decoyName")
 		}
 		switch c.Mode {
 		case pEmbedded:
